@@ -632,4 +632,145 @@ Section AdjCore.
     intros gy dx Hg Hd. split; [|split; unfold vneg; rewrite map_length; assumption].
     rewrite dot_vneg_l, (dot_comm gy (vneg dx)), dot_vneg_l, (dot_comm dx gy). reflexivity.
   Qed.
+
+  (* ---------------------------------------------------------------- the family built from descriptors *)
+  Definition desc_family {O} (describe : O -> opdesc) (inner dev : O -> option nat) : OpFamily O tshape (@OpFamily.vec R) :=
+    {| f_argn := fun o => ArgExact (length (d_args (describe o)));
+       f_retn := fun o => length (d_rets (describe o));
+       f_inner := inner;
+       f_dev := dev;
+       f_rand := fun _ => None;
+       f_nop := fun o => d_nop (describe o);
+       f_shape := fun o ashs => desc_shape (describe o) ashs;
+       f_fw := fun o _ xs => d_fw (describe o) xs;
+       f_bw := fun o xs ys gys => d_bw (describe o) xs ys gys |}.
+  Definition desc_jvp {O} (describe : O -> opdesc) : JvpFamily (R := R) O := fun o _ xs dxs => d_jvp (describe o) xs dxs.
+
+  (* a descriptor's adjointness is LocalAdjoint of the family *)
+  Theorem desc_family_LA {O} (describe : O -> opdesc) inner dev (o : O) : desc_LA (describe o) ->
+    LocalAdjoint rO radd rmul (desc_family describe inner dev) (desc_jvp describe) tsize o.
+  Proof.
+    intros HLA pos ashs rshs xs dxs gys Hs Hx Hdx Hgy. cbn [desc_family f_shape f_fw] in *. unfold desc_shape in Hs.
+    destruct (d_ok (describe o)) eqn:Hok; [|discriminate]. cbn [andb] in Hs.
+    destruct (shapes_eqb ashs (d_args (describe o))) eqn:Hsh; [|discriminate]. injection Hs as <-.
+    apply shapes_eqb_eq in Hsh. subst ashs.
+    destruct (HLA Hok xs dxs gys Hx Hdx Hgy) as (E & Hinc & Hj).
+    unfold eff_bw, desc_jvp. cbn [desc_family f_nop f_bw f_fw]. cbv zeta. split; [exact E|split; [|exact Hj]].
+    intros i inc Hi. destruct (d_nop (describe o)); [destruct i; discriminate|].
+    specialize (Hinc eq_refl). clear - Hinc Hi. revert i Hi. induction Hinc as [|x sh l l' Hxs _ IH]; intros [|i] Hi; try discriminate.
+    - injection Hi as <-. exists sh. split; [reflexivity|exact Hxs].
+    - apply IH. exact Hi.
+  Qed.
+
+  (* ---------------------------------------------------------------- unary elementwise kernels reading x and y
+     (CPUDEV_FW_X / CPUDEV_BW_X):  y[i] = f(x[i]),  gx[i] += bw(x[i], y[i], gy[i]);
+     tangent dx[i] * bw(x[i], f(x[i]), 1)  (the backward formula at gy = 1 is the local slope) *)
+  Definition uny_desc (s : tshape) (f : R -> R) (bw : R -> R -> R -> R) : opdesc :=
+    {| d_args := [s]; d_rets := [s]; d_ok := true; d_nop := false;
+       d_fw := fun xs => [un_eval R rO f (tsize s) (hd [] xs)];
+       d_jvp := fun xs dxs =>
+         [map (fun e : nat * (nat * nat) => let i := snd (snd e) in
+                 rmul (nth i (hd [] dxs) rO) (bw (nth i (hd [] xs) rO) (f (nth i (hd [] xs) rO)) rI))
+              (identity_pairs (tsize s))];
+       d_bw := fun xs ys gys =>
+         [incr_run R rO radd
+            (map (fun e : nat * (nat * nat) => let i := snd (snd e) in
+                    (fst e, bw (nth i (hd [] xs) rO) (nth i (hd [] ys) rO) (nth i (hd [] gys) rO)))
+                 (identity_pairs (tsize s))) (zeros (tsize s))] |}.
+  Lemma un_eval_nth f n (x : list R) i : i < n -> nth i (un_eval R rO f n x) rO = f (nth i x rO).
+  Proof.
+    intro Hi. unfold un_eval, identity_pairs, range. rewrite map_map. cbn [snd].
+    rewrite (nth_indep _ rO (f (nth 0 x rO))) by (rewrite map_length, seq_length; exact Hi).
+    rewrite (map_nth (fun j => f (nth j x rO))), seq_nth by exact Hi. reflexivity.
+  Qed.
+  Lemma uny_LA s f bw : (forall x y g, bw x y g = rmul g (bw x y rI)) -> desc_LA (uny_desc s f bw).
+  Proof.
+    intros Hlin Hok xs dxs gys Hx Hdx Hgy. cbn [uny_desc d_args d_rets d_ok d_nop d_fw d_jvp d_bw] in *.
+    apply F2_one in Hx. destruct Hx as (x & -> & Hx).
+    apply F2_one in Hdx. destruct Hdx as (dx & -> & Hdx). apply F2_one in Hgy. destruct Hgy as (gy & -> & Hgy).
+    cbn [hd]. unfold sized in *. set (n := tsize s) in *.
+    assert (Hin : forall e, In e (identity_pairs n) -> fst e < n /\ snd (snd e) = fst e).
+    { intros [d [k s0]] H. apply identity_spec in H. cbn [fst snd]. destruct H as (A & _ & B). split; [exact A|exact B]. }
+    cbv zeta. split; [|split].
+    - cbn [OpFamily.dots]. rewrite (incr_dot _ n dx); [| |exact Hdx].
+      2:{ rewrite Forall_map. cbn [fst]. apply Forall_forall. intros e He. apply (Hin e He). }
+      rewrite seq_dot0 by (rewrite Hgy; apply identity_sequential). rewrite map_map. cbn [fst snd].
+      f_equal. apply sumR_ext. intros e He. destruct (Hin e He) as (Hlt & ->).
+      rewrite (un_eval_nth f n x (fst e) Hlt), Hlin. ring.
+    - intros _. constructor; [|constructor]. unfold sized. rewrite incr_run_length', repeat_length; [reflexivity|].
+      rewrite repeat_length, Forall_map. cbn [fst]. apply Forall_forall. intros e He. apply (Hin e He).
+    - constructor; [|constructor]. unfold sized, identity_pairs, range. rewrite !map_length, seq_length. reflexivity.
+  Qed.
+
+  (* ---------------------------------------------------------------- binary elementwise kernels whose backward reads
+     y too (divide_bw_impl, pow_bw_impl):  ga[ia] += ia_f(gy, a, b, y),  gb[ib] += ib_f(gy, a, b, y) *)
+  Section ElementwiseY.
+    Variables (sa sb : tshape).
+    Variable f : R -> R -> R.
+    Variable j : R -> R -> R -> R -> R.            (* tangent: a b da db *)
+    Variables ia ib : R -> R -> R -> R -> R.       (* increments: gy a b y *)
+    Hypothesis Hj : forall g a b da db,
+      rmul g (j a b da db) = radd (rmul (ia g a b (f a b)) da) (rmul (ib g a b (f a b)) db).
+
+    Definition ewy_vals (h : R -> R -> R -> R -> R) (q : list (nat * (nat * nat))) (gy a b y : list R) : list R :=
+      map (fun e => h (nth (fst e) gy rO) (nth (fst (snd e)) a rO) (nth (snd (snd e)) b rO) (nth (fst e) y rO)) q.
+    Definition ewy_desc : opdesc :=
+      let sy := ew_shape sa sb in
+      {| d_args := [sa; sb]; d_rets := [sy]; d_ok := ew_ok sa sb; d_nop := false;
+         d_fw := fun xs => [ab_eval R rO f (ab_fw sa sb sy) (nth 0 xs []) (nth 1 xs [])];
+         d_jvp := fun xs dxs =>
+           let a := nth 0 xs [] in let b := nth 1 xs [] in let da := nth 0 dxs [] in let db := nth 1 dxs [] in
+           [map (fun e => j (nth (fst (snd e)) a rO) (nth (snd (snd e)) b rO)
+                            (nth (fst (snd e)) da rO) (nth (snd (snd e)) db rO)) (ab_fw sa sb sy)];
+         d_bw := fun xs ys gys =>
+           let gy := nth 0 gys [] in let a := nth 0 xs [] in let b := nth 1 xs [] in let y := nth 0 ys [] in
+           let q := ab_bw sa sb sy in
+           [scatterR (slots_a q) (ewy_vals ia q gy a b y) (zeros (tsize sa));
+            scatterR (slots_b q) (ewy_vals ib q gy a b y) (zeros (tsize sb))] |}.
+
+    Lemma ewy_LA : desc_LA ewy_desc.
+    Proof.
+      intros Hok xs dxs gys Hx Hdx Hgy. cbn [ewy_desc d_args d_rets d_ok d_nop d_fw d_jvp d_bw] in *.
+      destruct (ew_ok_spec sa sb Hok) as (HVa & HVb & Hba & Hbb). cbv zeta in HVa, HVb, Hba, Hbb.
+      set (sy := ew_shape sa sb) in *.
+      apply F2_two in Hx. destruct Hx as (a & b & -> & Ha & Hb).
+      apply F2_two in Hdx. destruct Hdx as (da & db & -> & Hda & Hdb). apply F2_one in Hgy. destruct Hgy as (gy & -> & Hgy).
+      cbn [nth]. change (ab_bw sa sb sy) with (ab_fw sa sb sy). set (p := ab_fw sa sb sy).
+      pose proof (ab_fw_sequential sa sb sy (tvolume sy) (tbatch sy) eq_refl eq_refl) as Hseq. fold p in Hseq.
+      pose proof (ab_fw_in_bounds sa sb sy (tvolume sy) (tbatch sy) eq_refl eq_refl HVa HVb Hba Hbb) as Hbnd. fold p in Hbnd.
+      assert (Hn : length p = tsize sy) by (rewrite (sequential_length p _ Hseq); reflexivity).
+      assert (Hseq' : map fst p = seq 0 (length p)) by (rewrite Hn; exact Hseq).
+      assert (HbA : Forall (fun e : nat * (nat * nat) => fst (snd e) < tsize sa) p) by (eapply Forall_impl; [|exact Hbnd]; cbn; tauto).
+      assert (HbB : Forall (fun e : nat * (nat * nat) => snd (snd e) < tsize sb) p) by (eapply Forall_impl; [|exact Hbnd]; cbn; tauto).
+      set (y := ab_eval R rO f p a b).
+      assert (Ey : forall e, In e p -> nth (fst e) y rO = f (nth (fst (snd e)) a rO) (nth (snd (snd e)) b rO)).
+      { intros e He. pose proof (seq_nth_map (fun e => f (nth (fst (snd e)) a rO) (nth (snd (snd e)) b rO)) rO p 0 Hseq' e He) as E.
+        rewrite Nat.sub_0_r in E. exact E. }
+      cbv zeta. split; [|split].
+      - cbn [OpFamily.dots]. unfold slots_a, slots_b.
+        rewrite (slot_dot (fun e => fst (snd e)) p _ da (tsize sa) HbA Hda).
+        rewrite (slot_dot (fun e => snd (snd e)) p _ db (tsize sb) HbB Hdb).
+        rewrite seq_dot0 by (unfold sized in Hgy; rewrite Hgy; exact Hseq).
+        assert (E1 : forall e, In e p -> nth (fst e) (ewy_vals ia p gy a b y) rO
+                     = ia (nth (fst e) gy rO) (nth (fst (snd e)) a rO) (nth (snd (snd e)) b rO) (nth (fst e) y rO)).
+        { intros e He. pose proof (seq_nth_map (fun e => ia (nth (fst e) gy rO) (nth (fst (snd e)) a rO) (nth (snd (snd e)) b rO) (nth (fst e) y rO)) rO p 0 Hseq' e He) as E.
+          rewrite Nat.sub_0_r in E. exact E. }
+        assert (E2 : forall e, In e p -> nth (fst e) (ewy_vals ib p gy a b y) rO
+                     = ib (nth (fst e) gy rO) (nth (fst (snd e)) a rO) (nth (snd (snd e)) b rO) (nth (fst e) y rO)).
+        { intros e He. pose proof (seq_nth_map (fun e => ib (nth (fst e) gy rO) (nth (fst (snd e)) a rO) (nth (snd (snd e)) b rO) (nth (fst e) y rO)) rO p 0 Hseq' e He) as E.
+          rewrite Nat.sub_0_r in E. exact E. }
+        rewrite (sumR_ext _ _ p (fun e He => f_equal (fun v => rmul v (nth (fst (snd e)) da rO)) (E1 e He))).
+        rewrite (sumR_ext _ _ p (fun e He => f_equal (fun v => rmul v (nth (snd (snd e)) db rO)) (E2 e He))).
+        transitivity (radd (sumR (map (fun e : nat * (nat * nat) =>
+              radd (rmul (ia (nth (fst e) gy rO) (nth (fst (snd e)) a rO) (nth (snd (snd e)) b rO) (nth (fst e) y rO)) (nth (fst (snd e)) da rO))
+                   (rmul (ib (nth (fst e) gy rO) (nth (fst (snd e)) a rO) (nth (snd (snd e)) b rO) (nth (fst e) y rO)) (nth (snd (snd e)) db rO))) p)) rO).
+        { rewrite sumR_add. ring. }
+        f_equal.
+        apply sumR_ext. intros e He. rewrite (Ey e He). symmetry. apply Hj.
+      - intros _. constructor; [|constructor; [|constructor]]; unfold sized, slots_a, slots_b.
+        + apply (slot_length (fun e => fst (snd e))). exact HbA.
+        + apply (slot_length (fun e => snd (snd e))). exact HbB.
+      - constructor; [|constructor]. unfold sized. rewrite map_length. exact Hn.
+    Qed.
+  End ElementwiseY.
 End AdjCore.
